@@ -7,9 +7,9 @@ character c), plus an exact (integer / Fraction) re-computation of the documente
 masked by the observed character X[n,c,start+q] unless `hypothetical`.
 
 Models are integer-valued float64 and strictly row-wise:
-  'rec'  parameter-free recording model: every output is a packed, injective record of the input
-         row (all L character codes) and of the extra-argument rows it was called with, so a
-         mix-up of rows / arguments / (character, position) layout cannot cancel;
+  'rec'  parameter-free recording model: every output is a packed record of the input row (all L
+         character codes) and of the extra-argument rows it was called with, so a mix-up of rows /
+         arguments / (character, position) layout cannot cancel (see RecModel);
   'lin'  a small integer-weight relu network with float64 parameters (predict casts X to float64).
 
 Window convention.  `end >= 1` is the exclusive end.  For negative `end` the package's own
@@ -34,8 +34,8 @@ SCOPE = {
              '600 seeded random cases: lengths 1-30, 1-3 examples, batch sizes in 1..A*W+1 (edges 1, A, W, A*W-1, A*W, A*W+1), '
              'recording and integer relu models, tensor/tuple outputs with 0-2 trailing dims, 0-2 per-example args of rank 1-3, '
              'int/negative int/slice/stepped slice/None targets, raw / attribution / hypothetical, int8/float32/float64 X',
-    'thorough': 'alphabets 2-5; exhaustive: lengths 1-8 x every window x 3 output kinds x {raw, attr, hyp} plus every negative-end '
-                'spelling for lengths 1-8; 6000 seeded random cases as in quick (lengths 1-30)',
+    'thorough': 'alphabets 2-5; exhaustive: lengths 1-9 x every window x 3 output kinds x {raw, attr, hyp} plus every negative-end '
+                'spelling for lengths 1-8; 12000 seeded random cases as in quick (lengths 1-30)',
 }
 
 F64 = torch.float64
@@ -50,31 +50,42 @@ def _prod(shape):
 
 
 class RecModel(torch.nn.Module):
-    """parameter-free, row-wise, integer-valued.  Output k, flat slot j:
-           packed[j % S] * (1 + j // S) + 7 * j + 3 * k
-    where packed = base-10 packing (8 digits per slot) of [character codes 1..A of the row, values of
-    every extra argument row]."""
+    """parameter-free, row-wise, integer-valued recording model.
+    feature vector f = [character codes 1..A of the row at every position, every value of every extra
+    argument row]; packed[s] = base-10 packing of 4 consecutive features; an output with P flat slots is
+        P >= S:  o[j] = packed[j % S] * (1 + j // S) + 7 j + 3 k          (every packed slot appears verbatim)
+        P <  S:  o[j] = sum_{s = j mod P} packed[s] * w(s // P) + 7 j + 3 k
+    with w(t) = 7**t when `exact` (raw mode, compared with torch.equal: two different single-character
+    mutants never share an output, since 7 does not divide digit differences * powers of 10) and
+    w(t) = 1 + t otherwise (attribution modes: keeps magnitudes ~1e5 so that float64 rounding of the
+    function under test stays far below the smallest possible mix-up)."""
 
-    def __init__(self, A, shapes, as_tuple):
+    def __init__(self, A, shapes, as_tuple, exact=True):
         super().__init__()
-        self.A, self.shapes, self.as_tuple = A, [tuple(s) for s in shapes], as_tuple
+        self.A, self.shapes, self.as_tuple, self.exact = A, [tuple(s) for s in shapes], as_tuple, exact
 
     def forward(self, X, *args):
         B = X.shape[0]
         Xf = X.to(F64)
         codes = (Xf * torch.arange(1, self.A + 1, dtype=F64)[None, :, None]).sum(dim=1)
         f = torch.cat([codes] + [a.reshape(B, -1).to(F64) for a in args], dim=1)
-        pad = (-f.shape[1]) % 8
+        pad = (-f.shape[1]) % 4
         if pad:
             f = torch.cat([f, torch.zeros(B, pad, dtype=F64)], dim=1)
-        w = torch.tensor([10.0 ** i for i in range(8)], dtype=F64)
-        packed = (f.reshape(B, -1, 8) * w).sum(dim=2)
+        w = torch.tensor([10.0 ** i for i in range(4)], dtype=F64)
+        packed = (f.reshape(B, -1, 4) * w).sum(dim=2)
         S = packed.shape[1]
         outs = []
         for k, shp in enumerate(self.shapes):
             P = _prod(shp)
-            j = torch.arange(P)
-            o = packed[:, j % S] * (1 + j // S).to(F64) + 7.0 * j.to(F64) + 3.0 * k
+            M = torch.zeros(S, P, dtype=F64)
+            if P >= S:
+                for j in range(P):
+                    M[j % S, j] = 1 + j // S
+            else:
+                for s_ in range(S):
+                    M[s_, s_ % P] = float(7 ** (s_ // P)) if self.exact else float(1 + s_ // P)
+            o = packed @ M + 7.0 * torch.arange(P, dtype=F64) + 3.0 * k
             outs.append(o.reshape(B, *shp))
         return tuple(outs) if self.as_tuple else outs[0]
 
@@ -124,7 +135,7 @@ def build(case):
     n_arg_feats = sum(_prod(shp) for shp, _ in case.get('args', []))
     m = case['model']
     if m['type'] == 'rec':
-        model = RecModel(A, m['shapes'], m['tuple'])
+        model = RecModel(A, m['shapes'], m['tuple'], exact=(case['mode'] == 'raw'))
     else:
         model = LinModel(A, L, m['shapes'], m['tuple'], n_arg_feats, case['seed'])
     return X, tuple(args), model
@@ -245,8 +256,6 @@ def check_ism(case):
     if tuple(res.shape) != (N, A, W):
         return ['attribution shape %s != %s' % (tuple(res.shape), (N, A, W))]
     tgt = _target(case)
-    shp = shapes[0]
-
     def sel(t):                                  # t: (1, T, *D) -> flat python ints of the selected targets
         v = t[0]
         v = v if tgt is None else v[tgt]
@@ -261,13 +270,14 @@ def check_ism(case):
         for q in range(W):
             d = [[v - b for v, b in zip(sel(ref[(n, c, q)][0]), b0)] for c in range(A)]
             colsum = [sum(d[c][k] for c in range(A)) for k in range(K)]
+            scale = max(1, max(abs(z) for row in d for z in row))
             for c in range(A):
                 exp = Fraction(sum(A * d[c][k] - colsum[k] for k in range(K)), A * K)
                 if mode == 'attr' and int(X[n, c, start + q]) != 1:
                     exp = Fraction(0)
-                scale = max(scale, max(abs(z) for z in d[c]))
                 g = float(got[n, c, q])
-                if not abs(g - float(exp)) <= 1e-9 * max(1.0, float(scale)):
+                # float64 rounding of the function under test: a few ulp of the largest magnitude per term
+                if not abs(g - float(exp)) <= 64 * 2.3e-16 * max(1.0, float(scale)) * (K + A):
                     nbad += 1
                     if first is None:
                         first = (n, c, q, g, float(exp))
@@ -335,7 +345,7 @@ def _rand_target(g, T):
 def run(rep):
     thorough = rep.tier == 'thorough'
     g = rep.rng
-    maxL_ex = 8 if thorough else 6
+    maxL_ex = 9 if thorough else 6
     maxL_neg = 8 if thorough else 5
     rot = 0
     # -- exhaustive small scope: every window, every output kind
@@ -387,7 +397,7 @@ def run(rep):
                     rot += 1
     rep.mark_exhaustive('every negative-end spelling and the default call for lengths 1-%d' % maxL_neg)
     # -- seeded random larger cases
-    n_rand = 6000 if thorough else 600
+    n_rand = 12000 if thorough else 600
     for k in range(n_rand):
         if rep.out_of_time():
             rep.note('time budget reached after %d random cases' % k)
